@@ -357,7 +357,9 @@ func c07Exhaustive() []c07Case {
 		shape string
 		p     refmodel.Path
 	}{{"index-on-map", pth("m", 0)}, {"index-on-nested-map", pth("m", "k", 0)}, {"key-on-list", pth("l", "k")}, {"key-on-nested-list", pth("l", 2, "q")},
-		{"index-on-string", pth("s", 0)}, {"key-on-number", pth("n", "x")}, {"index-on-set", pth("ss", 0)}, {"step-through-index-on-map", pth("m", 0, "x")}} {
+		{"index-on-string", pth("s", 0)}, {"key-on-number", pth("n", "x")}, {"index-on-set", pth("ss", 0)}, {"step-through-index-on-map", pth("m", 0, "x")},
+		// a path that STARTS at an attribute the item does not have (or at a NULL): there is nothing to step into
+		{"key-on-missing-attribute", pth("nope", "x")}, {"index-on-missing-attribute", pth("nope", 0)}, {"deep-on-missing-attribute", pth("nope", "x", "y")}, {"key-on-null", pth("znull", "x")}} {
 		v := val.Item{":v": val.Str("new")}
 		out = append(out, c07Case{IllPath: ill.shape, U: &refmodel.Update{Actions: []refmodel.Action{{Kind: "SET", Path: ill.p, RHS: uv(":v")}}}, Item: c07BaseItem(r, 3), Values: v})
 		out = append(out, c07Case{IllPath: ill.shape, U: &refmodel.Update{Actions: []refmodel.Action{{Kind: "REMOVE", Path: ill.p}}}, Item: c07BaseItem(r, 3), Values: val.Item{}})
@@ -801,7 +803,7 @@ func (p *c07) evalCase(x *res, cs c07Case, rr refmodel.RenderOpts, viaClient boo
 	case got == "panic":
 		x.viol("runtime-panic", site, fmt.Sprintf("Update(%q) on %s: runtime panic at %s: %s", expr, base.Canon(), site, msg), wit)
 		return
-	case want.Unsure:
+	case want.Unsure && cs.IllPath == "":
 		x.r.Counters["oracle_unsure"]++
 		return
 	case want.OrReject && got == "reject":
@@ -810,7 +812,9 @@ func (p *c07) evalCase(x *res, cs c07Case, rr refmodel.RenderOpts, viaClient boo
 			x.viol("rejected-update-changed-item", feature, fmt.Sprintf("Update(%q) was rejected (%s) but changed the item: %s", expr, msg, diffAttrs(after, base)), wit)
 		}
 		return
-	case want.Reject:
+	case want.Reject || (want.Unsure && cs.IllPath != ""):
+		// (the listed ill-fitting paths are refused by DynamoDB - "the document path provided in the update expression is
+		// invalid for update" - for REMOVE as for SET, also where the model is not sure about other shapes)
 		x.r.Counters["oracle_reject"]++
 		if got == "ok" && cs.IllPath != "" {
 			what := "and ignored"
